@@ -44,7 +44,7 @@ CaseRef(p)   == Stmt(<<Kw("func"), Id("f" \o Sym(p)), Grp("params", <<>>),
 BodyRefs     == {VarQ(p) : p \in Paths}
 BodyNulls    == {VarQ(p) : p \in Paths} \cup {NullPair(p) : p \in Paths}
                 \cup {LivePair(p, q) : p, q \in Paths} \cup {CaseRef(p) : p \in Paths}
-                \cup {MixedPair(p, q) : p, q \in Paths} \cup {MixedPairRev(p, q) : p \in Paths, q \in Paths \ {p}}
+                \cup {MixedPair(p, q) : p, q \in Paths} \cup {MixedPairRev(pq[1], pq[2]) : pq \in {x \in Paths \X Paths : x[1] # x[2]}}
 Frags        == {Stmt(<<Id("x"), Op("="), QualG(p, Sym(p))>>) : p \in Paths}
 NoFrags      == {}
 Meta0 == {[headers |-> <<>>, comments |-> <<>>, canonical |-> ""]}
